@@ -343,6 +343,95 @@ example : SpecSufficient ["TOTP".toList] (authTypePassword ||| authTypeTOTP) ∧
     hasBit (authTypePassword ||| authTypeTOTP) authTypeAny = true := by
   refine ⟨Or.inr (Or.inr ⟨_, List.mem_cons_self, authTypeTOTP, by decide, by decide⟩), by decide⟩
 
+/-! ### round 5: histories. The handler keeps nothing between requests: whatever else was served before, or is being
+served at the same moment, a certificate in a history is backed by the credential of the request that received it. -/
+
+/-- **Histories**: in every history of requests (any length, any order, any overlap) each issued certificate is
+justified by the request it answers — never by another request of the history. -/
+theorem c01_history_sound (cfg : Cfg) (allowed : List (List Char)) (rs : List CGReq) (i : Nat) (u : User)
+    (h : (decideHistory cfg allowed rs)[i]? = some (.issued u)) :
+    ∃ r, rs[i]? = some r ∧ r.sealed = false ∧ u = r.target ∧ r.req.method = .post ∧
+      ∃ info, checkAuth cfg r.req authTypeAny = .ok info ∧ info.user = u ∧
+        Established cfg r.req info ∧ SpecSufficient allowed info.authType := by
+  unfold decideHistory at h
+  rw [List.getElem?_map] at h
+  cases hr : rs[i]? with
+  | none => rw [hr] at h; cases h
+  | some r =>
+    rw [hr] at h
+    simp only [Option.map_some, Option.some.injEq] at h
+    obtain ⟨h1, h2, h3, _, info, h5, h6, h7, h8⟩ := c01_sound cfg allowed r u h
+    exact ⟨r, rfl, h1, h2, h3, info, h5, h6, h7, h8⟩
+
+/-- the judge's history decision is the model's -/
+theorem c01_history_judge_is_model (cfg : Cfg) (allowed : List (List Char)) (rs : List CGReq) :
+    specDecideHistory cfg allowed rs = decideHistory cfg allowed rs := by
+  unfold specDecideHistory decideHistory
+  exact List.map_congr_left (fun r _ => c01_judge_is_model cfg allowed r)
+
+/-- **Overlap**: a request whose only credential is a password the backend does not accept gets no certificate,
+whatever the other requests of the history carry (e.g. the right password for the same user, being verified at that
+very moment). -/
+theorem c01_history_wrong_password_refused (cfg : Cfg) (allowed : List (List Char)) (rs : List CGReq) (i : Nat)
+    (r : CGReq) (b : Basic) (u : User)
+    (hr : rs[i]? = some r) (htls : r.req.tls = false) (hck : r.req.cookie = Option.none)
+    (hb : r.req.basic = some b) (hres : b.result ≠ .valid) :
+    (decideHistory cfg allowed rs)[i]? ≠ some (.issued u) := by
+  intro h
+  obtain ⟨r', hr', _, _, _, info, _, _, hest, _⟩ := c01_history_sound cfg allowed rs i u h
+  rw [hr] at hr'
+  injection hr' with e
+  subst e
+  rcases hest with hc | ⟨hc, _⟩ | ⟨_, hc⟩ | ⟨_, hc⟩ | ⟨_, hc, _⟩
+  · obtain ⟨t, ht, _⟩ := hc
+    rw [hck] at ht; cases ht
+  · obtain ⟨_, _, b', hb', _, hv⟩ := hc
+    rw [hb] at hb'
+    injection hb' with e
+    subst e
+    exact hres hv
+  · have := hc.1; rw [htls] at this; cases this
+  · have := hc.1; rw [htls] at this; cases this
+  · have := hc.1; rw [htls] at this; cases this
+
+/-- **Expiry**: a session cookie presented after its expiry gets no certificate — whatever happened when the same
+cookie was presented earlier (`r.servedAt later` is the same request, byte for byte, served at time `later`). -/
+theorem c01_expired_later_refused (cfg : Cfg) (allowed : List (List Char)) (r : CGReq) (t : Token) (u : User)
+    (later : Int) (htls : r.req.tls = false) (hc : r.req.cookie = some t) (hexp : t.exp < later) :
+    decide cfg allowed (r.servedAt later) ≠ .issued u := by
+  intro h
+  obtain ⟨_, _, _, _, info, _, _, hest, _⟩ := c01_sound cfg allowed (r.servedAt later) u h
+  have hck : (r.servedAt later).req.cookie = some t := hc
+  have htl : (r.servedAt later).req.tls = false := htls
+  have hnow : (r.servedAt later).req.now = later := rfl
+  rcases hest with hv | ⟨hv, _⟩ | ⟨_, hv⟩ | ⟨_, hv⟩ | ⟨_, hv, _⟩
+  · obtain ⟨t', ht', _, _, _, _, _, hle, _⟩ := hv
+    rw [hck] at ht'
+    injection ht' with e
+    subst e
+    rw [hnow] at hle
+    omega
+  · rw [hv.1] at hck; cases hck
+  · have := hv.1; rw [htl] at this; cases this
+  · have := hv.1; rw [htl] at this; cases this
+  · have := hv.1; rw [htl] at this; cases this
+
+/-- non-vacuity: the history the harness drives — a TOTP session cookie that ends at 1050, presented at 1000 (served)
+and again at 1100 (refused) -/
+example : ∃ (cfg : Cfg) (r : CGReq) (t : Token), r.req.tls = false ∧ r.req.cookie = some t ∧ t.exp < 1100 ∧
+    decide cfg ["TOTP".toList] r = .issued r.target ∧
+    ∀ u, decide cfg ["TOTP".toList] (r.servedAt 1100) ≠ .issued u := by
+  let t : Token := { sigOK := true, issOK := true, audOK := true, kind := .auth, nbf := 900, exp := 1050, iat := 900,
+                     sub := "alice", level := authTypePassword ||| authTypeTOTP }
+  let r : CGReq := { req := { method := .post, origin := .none, hostPresent := true, tls := false, chains := [],
+                               cookie := some t, basic := Option.none, limiterAllows := true, now := 1000 },
+                     sealed := false, target := "alice", post := .ok }
+  let cfg : Cfg := { keymasterKeys := [1], deniedKeys := [], automationUsers := [], automationLookupFails := [] }
+  refine ⟨cfg, r, t, rfl, rfl, by decide, ?_, fun u => c01_expired_later_refused cfg _ r t u 1100 rfl rfl (by decide)⟩
+  exact c01_complete cfg _ r t rfl rfl rfl (Or.inl rfl) rfl rfl
+    ⟨rfl, rfl, rfl, rfl, by decide, by decide⟩ rfl (by decide)
+    (Or.inr (Or.inr ⟨_, List.mem_cons_self, authTypeTOTP, by decide, by decide⟩))
+
 end KM.CertGen
 
 -- BEGIN PINS (written by bin/update-pins.py)
